@@ -224,6 +224,22 @@ class TermRule(BaseRule):
         return [(s, True), (st.copy(), False)]
 
     def comprehension(self, it, st, node):
+        if (isinstance(node, (ast.GeneratorExp, ast.ListComp)) and len(node.generators) == 1 and not node.generators[0].ifs
+                and isinstance(node.generators[0].iter, (ast.Tuple, ast.List)) and node.generators[0].iter.elts
+                and all(isinstance(e, ast.Constant) for e in node.generators[0].iter.elts) and isinstance(node.generators[0].target, ast.Name)):
+            # (E(x) for x in ("a", "b", "c")) is the tuple (E("a"), E("b"), E("c"))
+            g = node.generators[0]
+            cur, raises = [(st, [])], []
+            for e in g.iter.elts:
+                nxt = []
+                for s, acc in cur:
+                    s = s.copy()
+                    it.assign(s, g.target, const(e.value))
+                    vals, r = it.eval(s, node.elt)
+                    raises += r
+                    nxt += [(s2, acc + [av]) for s2, av in vals]
+                cur = nxt
+            return [(s, AV("tuple", tuple(acc), truth=True, none=False)) for s, acc in cur], raises
         if isinstance(node, (ast.GeneratorExp, ast.ListComp, ast.SetComp)) and len(node.generators) == 1:
             g = node.generators[0]
             vals, raises = it.eval(st, g.iter)
@@ -495,3 +511,21 @@ def occurs_only_under(t, atom, wrappers):
     if op in wrappers:
         return True
     return all(occurs_only_under(a, atom, wrappers) for a in args)
+
+
+def subst(t: str, old: str, new: str) -> str:
+    """t with every occurrence of the sub-term `old` replaced by `new` (rebuilt through T, so the result is a registered term)."""
+    if t == old:
+        return new
+    op, args = destruct(t)
+    if op in (None, "const"):
+        return t
+    out = []
+    for a in args:
+        head = a.split("(", 1)[0]
+        if "=" in head and not a.startswith(("'", '"')):
+            k, v = a.split("=", 1)
+            out.append(f"{k}={subst(v, old, new)}")
+        else:
+            out.append(subst(a, old, new))
+    return T(op, *out)
